@@ -17,13 +17,16 @@ CHECK = {'rule': 'rapid-generated concurrent programs on one fresh memfs: 2..8 g
                  'plain stress)'],
  'essential_labels': {'all': ['burst-same-name-files', 'burst-same-name-dirs', 'burst-same-name-mixed', 'overlap-create-list',
                               'overlap-create-remove', 'overlap-read-write', 'overlap-write-write', 'op-Ws', 'op-Rs', 'op-Rp', 'op-Cd',
-                              'procs=1', 'procs=16', 'yield-plan']},
- 'tiers': {'quick': [{'test': '^TestProp$', 'checks': 600, 'shards': 8, 'timeout': 240}],
-           'thorough': [{'test': '^TestProp$', 'checks': 10000, 'shards': 16, 'timeout': 3000}]}}
+                              'procs=1', 'procs=16', 'yield-plan', 'listrace:listed-before-and-after-the-change']},
+ 'tiers': {'quick': [{'test': '^TestProp$', 'checks': 600, 'shards': 8, 'timeout': 240},
+                     {'test': '^TestPropListRace$', 'checks': 40, 'shards': 2, 'timeout': 240, 'seed_offset': 300}],
+           'thorough': [{'test': '^TestProp$', 'checks': 10000, 'shards': 16, 'timeout': 3000},
+                        {'test': '^TestPropListRace$', 'checks': 600, 'shards': 8, 'timeout': 3000, 'seed_offset': 300}]}}
 
 TEXT = {'technique': 'concurrent property testing (rapid): generated multi-goroutine programs over shared and private paths with self-describing '
               'values, same-name creation bursts behind spin barriers, per-owner exact models, must-contain listings from completion flags, '
-              'schedule knobs (GOMAXPROCS, delays, verif yield points), 30 s progress watchdog',
+              'schedule knobs (GOMAXPROCS, delays, verif yield points), 30 s progress watchdog; listings racing with the LAST change of a fresh directory '
+              '(hundreds of rounds per case) judged on the settled listing',
  'level_text': 'Exploration of schedules: thousands of generated concurrent programs run against one memfs under GOMAXPROCS 1/2/4/16; the '
                'check-then-create windows inside memfs are widened by generated yields/sleeps at three verif hook points, every other '
                'interleaving is whatever the Go scheduler produced. Passing means no inconsistency was observed on the sample.',
